@@ -135,6 +135,17 @@ def _gates(tier):
     for i in range(5):
         yield dict(name=f"vhdx.metadata_item_guid[{i}]", kind="magic", sparse=vimg, off=fields[f"meta.entry{i}.id"][1], width=16,
                    open_patched=vopen, thin=4)
+    # ---- VHDX differencing images: locator type, parent present, parent reachable at all
+    cimg = BX.build([0, DATA], [None, 0], layer=2, parent=[("relative_path", ".\\base.vhdx"), ("parent_linkage", "{x}")])
+    loc_off = [f for f in cimg.fields if f[0] == "parent_locator.type"][0][1]
+    yield dict(name="vhdx.parent_locator_type", kind="magic", sparse=cimg, off=loc_off, width=16,
+               open_patched=lambda patches: _open_vhdx_child(cimg, patches), thin=2)
+    yield dict(name="vhdx.parent_required.missing_file", kind="single", seed_ok=lambda: _open_vhdx_child(cimg, {}),
+               fault=lambda: _open_vhdx_child(cimg, {}, parent_present=False))
+    yield dict(name="vhdx.parent_required.anonymous_stream", kind="single", seed_ok=lambda: _open_vhdx_child(cimg, {}),
+               fault=lambda: _open_vhdx_child(cimg, {}, as_stream=True))
+    yield dict(name="vhdx.parent_required.bytesio", kind="single", seed_ok=lambda: _open_vhdx_child(cimg, {}),
+               fault=lambda: _open_vhdx_child(cimg, {}, as_stream="bytesio"))
     # ---- VDI / HDS / VHD
     v = BV.build([DATA, HOLE], [0, None], 4096).tobytes()
 
@@ -189,6 +200,19 @@ def _gates(tier):
     yield dict(name="hyperv.replay_log_signature", kind="magic", raw=hv, off=0x8000, width=4, open=open_hv)
     yield dict(name="hyperv.object_table_signature", kind="magic", raw=hv, off=0x2000, width=4, open=open_hv)
     yield dict(name="hyperv.key_table_signature", kind="magic", raw=hv, off=0x10000, width=2, open=open_hv)
+    # structures that are only listed in object tables 1..3 levels below the first one (chained or fanned out): the
+    # chained tables themselves, the key table and the replay log listed in the deepest one
+    tree3 = {"configuration": (BHV.T_NODE, {"a": (BHV.T_INT, 1), "n": (BHV.T_NODE, {"s": (BHV.T_STR, "x"), "b": (BHV.T_BOOL, True)}),
+                                            "z": (BHV.T_UINT, 5)})}
+    for depth, shape in ((1, "chain"), (2, "chain"), (3, "chain"), (2, "tail"), (3, "fan")):
+        # 3 key tables + 1 replay log = 4 object entries dealt round-robin over depth+1 tables
+        raw = BHV.build(tree3, ntables=3, object_table_chain=depth, chain_shape=shape, extra_replay_log=True)
+        deepest_kt = {1: 0x11000, 2: 0x12000, 3: 0x12000}[depth]
+        tag = f"depth{depth}.{shape}"
+        yield dict(name=f"hyperv.{tag}.object_table_signature", kind="magic", raw=raw, off=0x3000 + 0x1000 * (depth - 1), width=4,
+                   open=open_hv)
+        yield dict(name=f"hyperv.{tag}.key_table_signature", kind="magic", raw=raw, off=deepest_kt, width=2, open=open_hv)
+        yield dict(name=f"hyperv.{tag}.replay_log_signature", kind="magic", raw=raw, off=0x9000, width=4, open=open_hv)
     # ---- envelope
     key, iv = BE.det("k", 32), BE.det("iv", 12)
     env, regions = BE.build(BE.det("p", 100), key, iv)
@@ -222,6 +246,35 @@ def _gates(tier):
                open_text=lambda s: _open_keysafe(cipher=s), rebuild=True)
     yield dict(name="keysafe.kdf", kind="text", value="PBKDF2-HMAC-SHA-1", others=["PBKDF2-HMAC-SHA-256"],
                open_text=lambda s: _open_keysafe(kdf=s), rebuild=True)
+
+
+def _open_vhdx_child(cimg, patches, parent_present=True, as_stream=False):
+    """A differencing VHDX (block 0 lives in the parent) next to / without its parent, by path or as an anonymous stream."""
+    from dissect.hypervisor.disk.vhdx import VHDX
+
+    from mc.builders import vhdx as BX
+
+    if as_stream == "bytesio":
+        return VHDX(io.BytesIO(cimg.tobytes())).read(512)
+    if as_stream:
+        return _open_vhdx_sparse(_Patched(cimg.sparse(log=False), patches))
+    with scratch_dir() as d:
+        if parent_present:
+            BX.build([DATA, DATA], [0, 1], layer=1).write_to(os.path.join(d, "base.vhdx"))
+        cimg.write_to(os.path.join(d, "child.avhdx"))
+        with open(os.path.join(d, "child.avhdx"), "r+b") as f:
+            for off, b in patches.items():
+                f.seek(off)
+                f.write(b)
+        v = VHDX(Path(d) / "child.avhdx")
+        try:
+            return v.read(512)
+        finally:
+            for x in (v, v.parent):
+                try:
+                    x.fh.close()
+                except Exception:
+                    pass
 
 
 def _vmdk_extent(kind):
